@@ -344,6 +344,7 @@ def check(prog, rep):
                     r5.add(f"mem|{qual}:{bases.pop()}", idx == [0, 1, 2], f"product {U(n)[:70]} uses indices {idx}",
                            f"pdb2pqr/{rel}:{n.lineno} ({qual})")
 
+    rep.guarded(rule_model_sizing, prog, rep)
     # ------------------------------------------------------------------ R6
     r6 = rep.rule("R6", "the APBS input names the PQR file just written", floor=4)
     md = prog.func("main.py", "main_driver").node
@@ -413,3 +414,62 @@ def check_column(prog, rep, r3, subline_expr, where):
                     bad.append(f"{'whitespace' if shift_cuts else 'fixed'} layout: field {s.src} may occupy columns {a2}..{a2 + s.chi} >= {K}")
     r3.add("subline-column", not bad, f"line[{K}:] starts at the x field or in guaranteed blanks before it in both layouts"
            if not bad else f"line[{K}:] can cut into a field: {sorted(set(bad))[:3]}", where)
+
+
+def rule_model_sizing(prog, rep):
+    """Psize is evaluated by constant propagation on model PQR files (one line per layout class, header and trailer lines,
+    ATOM and HETATM in both orders, a sphere that exceeds both running extrema at once; a small and a large system)."""
+    import math
+    import re as _re
+    from ..guards import Flow
+    from ..objinterp import ObjRunner
+    from .shared import PQR_MODEL_LINES, _pqr_line
+    r = rep.rule("R7", "model runs: extrema, charge, grid and memory report follow from the ATOM and HETATM records alone", floor=8)
+    where = "pdb2pqr/psize.py (Psize.parse_lines .. __str__)"
+    small = PQR_MODEL_LINES
+    # a large system: the same atoms spread over ~200 A so that the memory ceiling is exceeded and a parallel solve is planned
+    big = list(PQR_MODEL_LINES[:-2])
+    n0 = 100
+    for k, (dx, dy, dz) in enumerate(((180.0, 0.0, 0.0), (0.0, -150.0, 0.0), (0.0, 0.0, 160.0), (-90.0, 80.0, -70.0))):
+        rec = ("HETATM" if k % 2 else "ATOM", n0 + k, "C", "XXX", None, 500 + k, None, 20.0 + dx, 10.0 + dy, 5.0 + dz, 0.25, 1.5)
+        keys = ("type", "serial", "name", "res_name", "chain_id", "res_seq", "ins_code", "x", "y", "z", "charge", "radius")
+        big.append((_pqr_line(*rec), dict(zip(keys, rec))))
+    big += PQR_MODEL_LINES[-2:]
+    one = [PQR_MODEL_LINES[0], PQR_MODEL_LINES[1]] + list(PQR_MODEL_LINES[-2:])  # a single atom: every count sits on the 33-point floor
+    for label, model in (("one-atom", one), ("small", small), ("large", big)):
+        atoms = [w for _, w in model if w is not None]
+        run = ObjRunner(prog, "psize.py")
+        try:
+            p = run.new("Psize")
+            run.call(p, "parse_lines", [ln for ln, _ in model])
+            run.call(p, "set_all")
+            text = run.call(p, "__str__")
+        except Flow as fl:
+            r.bad(f"{label}|runs", f"Psize stops with {fl.value} on the {label} model ({len(atoms)} atoms)", where)
+            continue
+        lo = [min(a["xyz"[i]] - a["radius"] for a in atoms) for i in range(3)]
+        hi = [max(a["xyz"[i]] + a["radius"] for a in atoms) for i in range(3)]
+        close = lambda u, v: all(abs(x - y) < 1e-6 for x, y in zip(u, v))  # noqa: E731
+        r.add(f"{label}|extrema", close(p["minlen"], lo) and close(p["maxlen"], hi),
+              f"bounding box {[round(x, 3) for x in p['minlen']]} .. {[round(x, 3) for x in p['maxlen']]}; the atom spheres of all "
+              f"{len(atoms)} ATOM/HETATM records span {[round(x, 3) for x in lo]} .. {[round(x, 3) for x in hi]}", where)
+        q = sum(a["charge"] for a in atoms)
+        r.add(f"{label}|charge-and-counts", abs(p["charge"] - q) < 1e-6 and p["gotatom"] + p["gothet"] == len(atoms),
+              f"charge {p['charge']:.4f} (records sum to {q:.4f}); {p['gotatom']} ATOM + {p['gothet']} HETATM of {len(atoms)} records", where)
+        ng, fl_, cl, ctr = p["ngrid"], p["fine_length"], p["coarse_length"], p["center"]
+        legal = all(isinstance(n, int) and n >= 33 and (n - 1) % 32 == 0 for n in ng)
+        encl = all(ctr[i] - fl_[i] / 2 <= lo[i] + 1e-9 and ctr[i] + fl_[i] / 2 >= hi[i] - 1e-9 and fl_[i] <= cl[i] + 1e-9 for i in range(3))
+        r.add(f"{label}|grid", legal and encl, f"grid {ng}, fine {[round(x, 2) for x in fl_]} <= coarse {[round(x, 2) for x in cl]}, centre "
+              f"{[round(x, 2) for x in ctr]}: multigrid-legal counts and a fine box that contains every atom sphere", where)
+        if not isinstance(text, str):
+            raise AnalysisError("Psize.__str__ did not produce a string on the model")
+        want_mb = 200.0 * ng[0] * ng[1] * ng[2] / 1024 / 1024
+        m = _re.search(r"sequential solve = ([0-9.]+) MB|required \(([0-9.]+) MB >", text)
+        got = float(next(g for g in m.groups() if g)) if m else None
+        r.add(f"{label}|memory-report", got is not None and abs(got - want_mb) <= 0.0006,
+              f"the report states {got} MB for the {ng[0]} x {ng[1]} x {ng[2]} grid (200 bytes per point: {want_mb:.3f} MB)", where)
+        if label == "large":
+            ns = p["nsmall"]
+            r.add("large|parallel-plan", "Parallel solve required" in text and all(isinstance(n, int) and (n - 1) % 32 == 0 and n >= 33 for n in ns),
+                  f"the large model needs a parallel solve; per-processor grid {ns} must again be integers of the form 32k+1", where)
+    r.info["methods_interpreted"] = sorted(set(run.calls))
